@@ -2,6 +2,6 @@
 # Run once after a fresh restore, offline: builds the lab (plain and -race) from files on disk and
 # pre-generates the 256-byte LXR table used by the lab's proof-of-work.
 set -e
-. /verif/bin/env.sh
-/verif/bin/build.sh all
-/verif/.build/lab selfcheck
+. "$(dirname "${BASH_SOURCE[0]}")/env.sh"
+"$VERIF_ROOT/bin/build.sh" all
+"$VERIF_ROOT/.build/lab" selfcheck
